@@ -306,25 +306,13 @@ func (z *ZodEnum[T, R]) Refine(fn func(R) bool, params ...any) *ZodEnum[T, R] {
 		}
 	}
 
-	sp := utils.NormalizeParams(params...)
-	var msg any
-	if sp.Error != nil {
-		msg = sp.Error
-	}
-
-	check := checks.NewCustom[any](wrapper, msg)
+	check := checks.NewCustom[any](wrapper, utils.RefineParams(params...))
 	return z.withCheck(check)
 }
 
 // RefineAny applies validation without type conversion.
 func (z *ZodEnum[T, R]) RefineAny(fn func(any) bool, params ...any) *ZodEnum[T, R] {
-	sp := utils.NormalizeParams(params...)
-	var msg any
-	if sp.Error != nil {
-		msg = sp.Error
-	}
-
-	check := checks.NewCustom[any](fn, msg)
+	check := checks.NewCustom[any](fn, utils.RefineParams(params...))
 	return z.withCheck(check)
 }
 
